@@ -5,6 +5,7 @@ import Driver.C10
 import Driver.C11
 import Driver.C15
 import Driver.C01
+import Driver.C03
 import Driver.C02
 import Driver.C16
 import Driver.C13
@@ -25,6 +26,7 @@ def handlers : List (String × Handler) := [
   ("C11", Driver.C11.handle),
   ("C15", Driver.C15.handle),
   ("C01", Driver.C01.handle),
+  ("C03", Driver.C03.handle),
   ("C02", Driver.C02.handle),
   ("C16", Driver.C16.handle),
   ("C13", Driver.C13.handle),
